@@ -15,3 +15,5 @@ def run(ctx, rep):
     sync.rule_O9b_relaxed_marking(mod, rep)
     from ..rules import more
     more.rule_sing_init(mod, rep)
+    more.rule_kernel_columns(mod, rep)
+    more.rule_release_after(mod, rep)
